@@ -1,0 +1,29 @@
+// Copyright 2026 The Mellium Contributors.
+// Use of this source code is governed by the BSD 2-clause
+// license that can be found in the LICENSE file.
+
+//go:build verif
+
+// This file contains no code. It carries machine-checked contracts (lines
+// starting with "//@") read by the verification tooling.
+
+package attr
+
+// randomID panics by design when the entropy source fails (documented); with
+// a working source it returns exactly n characters.
+//@ func randomID
+//@   requires n >= 0
+//@   pure
+//@   maypanic
+//@   ensures len(result) == n
+
+//@ func RandomID
+//@   pure
+//@   maypanic
+//@   ensures len(result) == 16
+
+//@ func RandomLen
+//@   requires n >= 0
+//@   pure
+//@   maypanic
+//@   ensures len(result) == n
